@@ -140,6 +140,39 @@ def correspond(ctx):
                         ctx.count("date-rejected-wrong-type")
                     continue
                 v = gen_dt(rng)
+                if rng.random() < 0.3:
+                    # a datetime carrying a UTC offset: the same INSTANT is stored (and read back as naive UTC)
+                    off = rng.choice([0, 60, -60, 120, 330, -570, 14 * 60, -14 * 60, rng.randint(-14 * 60, 14 * 60)])
+                    v = v.replace(tzinfo=dt.timezone(dt.timedelta(minutes=off)))
+                    try:
+                        want = v.astimezone(dt.timezone.utc).replace(tzinfo=None, microsecond=0)
+                    except OverflowError:
+                        want = None
+                    try:
+                        setattr(cp, name, v)
+                        outcome = "ok"
+                    except ValueError:
+                        outcome = "ValueError"
+                    except Exception as e:  # noqa
+                        outcome = type(e).__name__
+                    ctx.count("date-with-utc-offset")
+                    el = {"created": cp._element.created, "last_printed": cp._element.lastPrinted, "modified": cp._element.modified}[name]
+                    add(f"c18.fmtaware {v.year} {v.month} {v.day} {v.hour} {v.minute} {v.second} {off}",
+                        enc(el.text) if outcome == "ok" else ("overflow" if outcome == "ValueError" else outcome), ("fmtaware", name, str(v)))
+                    if want is None:
+                        if outcome != "ValueError":
+                            ctx.fail("date-aware-out-of-range", f"{name} = {v!r} (outside years 1..9999 as UTC): {outcome}, expected ValueError", {"prop": name, "value": str(v)})
+                        if name in expect and getattr(cp, name) != expect[name]:
+                            ctx.fail("rejected-date-changed-value", f"{name} changed although the assignment raised", {"prop": name})
+                        continue
+                    if outcome != "ok":
+                        ctx.fail("date-aware-rejected", f"{name} = {v!r} raised {outcome}", {"prop": name, "value": str(v)})
+                        continue
+                    expect[name] = want
+                    got = getattr(cp, name)
+                    if got != want:
+                        ctx.fail("date-readback:utc-offset", f"{name} = {v!r} (the instant {want!r} UTC) reads back {got!r} (stored {el.text!r})", {"prop": name, "value": str(v)})
+                    continue
                 setattr(cp, name, v)
                 want = v.replace(microsecond=0)
                 expect[name] = want
